@@ -39,7 +39,8 @@ def run(ctx):
                 "Location header or as a document reference; every connection's raw bytes are judged by T_Request against "
                 "Request.tla; distinct = distinct (channel, input)")
     res.assumptions = ["a Host header may leave out the default port 443 (judged only when port 443 can be bound on loopback)",
-                       "TLS layer: a resumed session or a client certificate counts as identifying data", "dot segments and empty path segments are not generated (RFC 3986 normalisation is allowed)",
+                       "a connection must arrive at the listener (address and port) its URL names",
+                       "TLS layer: a resumed session or a client certificate counts as identifying data", "the request names the path as written: dot segments and empty segments are generated and must arrive as they are",
                        "request-target equivalence = equal percent-decoded path and query"]
     for b in bad:
         e = evs[b["line"] - 1]
